@@ -47,6 +47,9 @@ def run(ctx: Ctx) -> None:
     n6 = S.link_current_test(ctx, v, "C16.R6")
     rep.floor("C16.R6", n6, 0)
     decode_set_store_local(ctx, v)
+    rep.rule("C16.R12", "the implicit default store and set_store('local') without directories use the same default directories")
+    n12 = default_dirs_agree(ctx, v, "C16.R12")
+    rep.floor("C16.R12", n12, 2)
     # a second data view of a shared internal directory gets all its paths: the complete map is committed even when
     # every blob is already present (cache hit)
     from .common import find_api_functions
@@ -56,7 +59,53 @@ def run(ctx: Ctx) -> None:
     commit_rules(ctx, top, "C16.R5")
 
 
-def decode_set_store_local(ctx: Ctx, v) -> None:
+def default_dirs_agree(ctx: Ctx, v, rule: str) -> int:
+    """the store created implicitly on first use and the one `set_store('local')` creates without directories are built on the same
+    default directories (a process that configures nothing and one that says 'local' share blobs and paths)"""
+    from ..fsmodel import StoreModel, flatten, show
+    rep = ctx.report
+    prog = ctx.prog
+    found = {}
+    for q in ("dds._api._store", "dds._api.set_store"):
+        f = prog.funcs.get(q)
+        if f is None:
+            raise AnchorError(f"{q} not found")
+        sm = StoreModel.__new__(StoreModel)
+        sm.prog, sm.cls, sm.types, sm.attr_defs, sm.attr_def_exprs, sm.ctor_params = prog, v.cls, ctx._types, {}, {}, []
+        sm.expr_terms = {}
+        env = {p_: ("sym", p_) for p_ in f.positional_params()}
+        sm._walk(f.node.body, f, env, [], [], [], 0)
+        for c in f.own_nodes():
+            if isinstance(c, ast.Call) and (prog.dotted(f, c.func) or "") == v.cls.qname and len(c.args) >= 2:
+                terms = []
+                for a in c.args[:2]:
+                    t = sm.expr_terms.get(id(a))
+                    arms = list(t[1:]) if isinstance(t, tuple) and t and t[0] == "phi" else [t]
+                    arms = [flatten(x) for x in arms if not (isinstance(x, tuple) and x and x[0] == "sym")]
+                    terms.append(arms)
+                found[q] = (f, c, terms)
+    if len(found) != 2:
+        rep.unknown(rule, "dds._api", f"construction of the default local store not found in {sorted(set(('dds._api._store', 'dds._api.set_store')) - set(found))}", "dds/_api.py")
+        return 0
+    (f1, c1, t1), (f2, c2, t2) = found["dds._api._store"], found["dds._api.set_store"]
+    n = 0
+    for i, which in enumerate(("internal directory", "data directory")):
+        n += 1
+        a, b = t1[i], t2[i]
+        desc = f"the default {which} of the implicit store and of set_store('local') are the same"
+        if len(a) == 1 and len(b) == 1 and a[0] is not None and b[0] is not None:
+            if a[0] == b[0]:
+                rep.ok(rule, f1.qname, desc + f" ({show(a[0])})", f1.loc(c1))
+            else:
+                rep.bad(rule, f1.qname, desc, f1.loc(c1), [f"{f1.loc(c1)}: implicit store: {show(a[0])}", f"{f2.loc(c2)}: set_store('local'): {show(b[0])}",
+                        "a process that relies on the implicit store and one that calls dds.set_store('local') do not see each other's blobs / paths: each reads None for what the other kept"],
+                        f"default-{i}", what=f"the two default local stores use different {which}s")
+        else:
+            rep.unknown(rule, f1.qname, f"default {which} not evaluated: {a} / {b}", f1.loc(c1))
+    return n
+
+
+def decode_set_store_local(ctx: Ctx, v, rule: str = "C16.R3") -> None:
     rep = ctx.report
     prog = ctx.prog
     f = prog.funcs.get("dds._api.set_store")
@@ -98,17 +147,17 @@ def decode_set_store_local(ctx: Ctx, v) -> None:
                             bad.append(f"{which}={given!r} (missing) reaches the store as {got!r} instead of a default directory")
     desc = "missing internal_dir / data_dir are replaced by defaults; given ones reach the store unchanged"
     if bad:
-        rep.bad("C16.R3", f.qname, desc, f.loc(), bad[:6], "local-dirs", what="set_store('local') does not build the store from the given / default directories")
+        rep.bad(rule, f.qname, desc, f.loc(), bad[:6], "local-dirs", what="set_store('local') does not build the store from the given / default directories")
     elif und:
-        rep.unknown("C16.R3", f.qname, "set_store uses syntax outside the abstract evaluator", f.loc(), und[:4])
+        rep.unknown(rule, f.qname, "set_store uses syntax outside the abstract evaluator", f.loc(), und[:4])
     else:
-        rep.ok("C16.R3", f.qname, desc + f" ({n} combinations)", f.loc())
+        rep.ok(rule, f.qname, desc + f" ({n} combinations)", f.loc())
     # a Store instance together with a cache option is rejected
     ev = Evaluator(prog, oracle=oracle)
     outs = ev.run(f, [Obj("dds.store.MemoryStore", [], {}), Const(None), Const(None), Const(None), Const(None), Const(True)])
     desc = "a Store object together with cache_objects is rejected with a DDSException"
     if outs and all(o.kind == "raise" and o.exc and o.exc.exc_type == "DDSException" for o in outs):
-        rep.ok("C16.R3", f.qname, desc, f.loc())
+        rep.ok(rule, f.qname, desc, f.loc())
     else:
-        rep.bad("C16.R3", f.qname, desc, f.loc(), [repr(o) for o in outs][:4], "store-and-cache", what="a Store object with a cache option is not rejected")
-    rep.floor("C16.R3", n, 9)
+        rep.bad(rule, f.qname, desc, f.loc(), [repr(o) for o in outs][:4], "store-and-cache", what="a Store object with a cache option is not rejected")
+    rep.floor(rule, n, 9)
